@@ -309,6 +309,11 @@ int main(int argc, char **argv)
 			record("MemlimitSet", -1, (long)need, u, 0, 0);
 			if (u == LZMA_OK) continue;
 		}
+		if (!enc && (ret == LZMA_NO_CHECK || ret == LZMA_UNSUPPORTED_CHECK || ret == LZMA_GET_CHECK)) {
+			// notification asked for with LZMA_TELL_*: look at the Check type and go on
+			record("GetCheck", -1, (long)lzma_get_check(&strm), 0, 0, 0);
+			continue;
+		}
 		if (ret != LZMA_OK && ret != LZMA_BUF_ERROR)
 			break;
 		if (ret == LZMA_BUF_ERROR && action == LZMA_FINISH && g == outcap - op + (aout - strm.avail_out) && g > 0)
